@@ -169,7 +169,7 @@ impl C01 {
     /// Bring a machine to the boundary right before the instruction under test.
     fn plane_base(&self, image: Vec<u8>, regs: [u8; 8], stack: u8, start_of_insn: u8, pokes: Vec<(u8, u8)>) -> Result<LockStep, Violation> {
         let setup = Setup {
-            image: Image { bytes: image, stack, limit: Some(0xFF) },
+            image: Image { bytes: image, stack, limit: Some(0xFF), keep_limit: false },
             regs: Some(regs),
             pokes,
             inputs: [0x5A, 0xA5, 0x3C, 0xC3],
@@ -292,7 +292,7 @@ impl C01 {
                                 r[s] = b;
                             }
                             let setup = Setup {
-                                image: Image { bytes: img, stack: 0, limit: Some(0xFF) },
+                                image: Image { bytes: img, stack: 0, limit: Some(0xFF), keep_limit: false },
                                 regs: Some(r),
                                 pokes: vec![],
                                 inputs: [0; 4],
@@ -363,7 +363,7 @@ impl C01 {
                             rr[4] = fr;
                             rr[5] = 0;
                             let setup = Setup {
-                                image: Image { bytes: img, stack: 0, limit: Some(0xFF) },
+                                image: Image { bytes: img, stack: 0, limit: Some(0xFF), keep_limit: false },
                                 regs: Some(rr),
                                 pokes: vec![],
                                 inputs: [0; 4],
@@ -537,15 +537,12 @@ impl Check for C01 {
         let uses_key = setup.image.bytes.windows(4).any(|w| w == [0xFB, 0x01, 0x5F, 0xF9]);
         for _ in 0..nev {
             let t = rng.below(max_edges as u64 / 4) as u32;
-            let s = match rng.below(8) {
+            let s = match rng.below(9) {
                 0 => Stim::Continue,
-                1 => {
-                    if uses_key {
-                        Stim::Continue
-                    } else {
-                        Stim::KeyInt
-                    }
-                }
+                // masked when the program never enables the key; a real interrupt (entry sequence,
+                // its pushes and its cycle cost) when it does
+                1 | 7 if uses_key || rng.bool() => Stim::KeyInt,
+                1 => Stim::Continue,
                 2 => Stim::Mode(true),
                 3 => Stim::Mode(false),
                 4 => Stim::InReg(rng.below(4) as u8, rng.u8()),
